@@ -500,6 +500,11 @@ class SceneGraph:
         for attrib in self.transforms.node_data.values():
             if "geometry" in attrib and attrib["geometry"] in geometries:
                 attrib.pop("geometry")
+        # the geometry name is also stored on the edge that created the
+        # node which is what `to_edgelist` exports so remove it there too
+        for attrib in self.transforms.edge_data.values():
+            if "geometry" in attrib and attrib["geometry"] in geometries:
+                attrib.pop("geometry")
 
         # it would be safer to just run _cache.clear
         # but the only property using the geometry should be
